@@ -89,6 +89,8 @@ def session_table(fb):
     # (... then forms whose last line holds no closing parenthesis: a string and a |symbol| that span lines, a list whose closing
     # parenthesis is preceded by lines without one)
     lines = ["(define x", " 1)", "x", "", "(car", "5)", "y", "(display 1)", "(list #\\ ", "  #\\a)", '"abc', 'def"', "|p", "q|", "'(a", "b", "c", ")",
+             # an empty line typed while a form is open is not the end of the form
+             "(list 1", "", " 2)",
              # a CLOSED form the evaluator rejects with the error the reader also uses for "ran out of text" ((if) has no operands):
              # it is an error of the submission — printed, buffer cleared — not a request for more lines
              "(if)", "z"]
@@ -111,7 +113,7 @@ def session_table(fb):
     syn = Enum(ed["Syntax"], [unexpected_end])
     syn.name, syn.adt = "Syntax", "error::ErrorData"
     answers = [machine.ok(machine.none()), machine.ok(machine.some(VAL)), machine.err(located(logic)), machine.ok(machine.some(VAL)),
-               machine.ok(machine.some(void)), machine.ok(machine.none()), machine.ok(machine.none()), machine.ok(machine.none()), machine.ok(machine.none()),
+               machine.ok(machine.some(void)), machine.ok(machine.none()), machine.ok(machine.none()), machine.ok(machine.none()), machine.ok(machine.none()), machine.ok(machine.none()),
                machine.err(located(syn)), machine.ok(machine.some(VAL))]
     k, n_eval = [0], [0]
     ev = []
@@ -190,12 +192,14 @@ def rule_session(ctx, rule_buffer, rule_print, rule_one=None):
         ctx.undecided(rule_buffer, "session", "cannot follow run_with_interpreter on the scripted session (%s)" % d["stuck"], where_of(f))
         return 0
     evals = [e[1] for e in d["events"] if e[0] == "eval"]
-    want = ["(define x\n 1)", "x", "(car\n5)", "y", "(display 1)", "(list #\\ \n  #\\a)", '"abc\ndef"', "|p\nq|", "'(a\nb\nc\n)", "(if)", "z"]
+    want = ["(define x\n 1)", "x", "(car\n5)", "y", "(display 1)", "(list #\\ \n  #\\a)", '"abc\ndef"', "|p\nq|", "'(a\nb\nc\n)", "(list 1\n 2)", "(if)", "z"]
+    # (an empty line inside an open form may or may not leave a newline in the text: the same tokens either way)
+    evals = ["(list 1\n 2)" if e == "(list 1\n\n 2)" else e for e in evals]
     ctx.inst(rule_buffer, "session/submissions", {"submitted": evals})
     ctx.oblige(evals == want)
     if evals != want:
         ctx.report(rule_buffer, "session/submissions", "the lines `(define x`, ` 1)`, `x`, ``, `(car`, `5)` (an error), `y`, `(display 1)`, `(list #\\ ` "
-                   "(ending in a blank), `  #\\a)`, then a string, a |symbol| and a list spread over lines whose last line has no parenthesis, are submitted as %s; expected %s (the lines exactly as typed, joined by a newline until "
+                   "(ending in a blank), `  #\\a)`, then a string, a |symbol| and a list spread over lines whose last line has no parenthesis, a list with an empty line inside it, are submitted as %s; expected %s (the lines exactly as typed, joined by a newline until "
                    "complete; the buffer cleared after every submission, failed or not)" % (
                        evals, want), where_of(f))
     if rule_one:
